@@ -133,6 +133,16 @@ Theorem C07_history_intact : forall H w h o ob, Inv H w -> ticks H w h ->
 Proof. exact history_intact. Qed.
 Print Assumptions C07_history_intact.
 
+(* the read_only option of a handle is ignored by check / oids_exist / checkout (one model serves
+   every handle: all theorems above hold through a read-only handle); add through such a handle
+   is refused (ObjectDBPermissionError, code 1), creates no object and harms no intact one *)
+Theorem C07_readonly_add_refused : forall H w v items,
+  snd (step H w (OAddRO v items)) = ORes 1 /\
+  (forall o, lookup o (w_objs w) = None -> lookup o (w_objs (fst (step H w (OAddRO v items)))) = None) /\
+  (forall o ob, Intact H w o ob -> exists ob', Intact H (fst (step H w (OAddRO v items))) o ob').
+Proof. exact add_ro_refused. Qed.
+Print Assumptions C07_readonly_add_refused.
+
 (* ---------------------------------------------------------------- deletion may fail *)
 (* without a configured fault the fault layer computes exactly what the pure model computes, step
    by step, over every history: all theorems above are about what the correspondence runs *)
